@@ -118,6 +118,15 @@ def gen_model(rng: random.Random) -> dict:
     submod_objs = gen_objs(rng.randint(1, 2), 0.2)
     submod_objs.append(gen_class(fresh("D"), [target["name"]]))
     mods["pk.sub.mod"] = {"objs": submod_objs, "imports": [("pk.core", target["name"], None)], "all": None}
+    # underscore-named modules that are public all the same: listed in the parent's __all__, or special (__main__)
+    if mods["pk"]["all"] is not None and rng.random() < 0.35:
+        mods["pk"]["all"].append("_impl")
+    if rng.random() < 0.3:
+        mods["pk.__main__"] = {"objs": gen_objs(rng.randint(1, 2), 0.2), "imports": [], "all": None}
+    if rng.random() < 0.3:
+        mods["pk.sub._low"] = {"objs": gen_objs(rng.randint(1, 2), 0.2), "imports": [], "all": None}
+        if rng.random() < 0.7:
+            mods["pk.sub"]["all"] = [o["name"] for o in mods["pk.sub"]["objs"] if rng.random() < 0.8] + (["_low"] if rng.random() < 0.7 else [])
     extra = rng.choice([None, None, "dangling", "cyclic"])
     if extra and mods["pk"]["all"] is not None:
         mods["pk"]["all"].append("ghost" if extra == "dangling" else "loop_a")  # the broken re-export is exported
@@ -158,8 +167,23 @@ def render(model: dict) -> dict[str, str]:
 
 
 # -- public surface model ------------------------------------------------------------------------
-def module_public(mod: str) -> bool:
-    return not any(part.startswith("_") for part in mod.split(".")[1:])
+def module_public(model: dict, mod: str) -> bool:
+    """Every component below the top-level package must be public by the documented rules: a module without leading
+    underscore is public whatever ``__all__`` says; an underscore-named one is public when its parent's (non-empty)
+    ``__all__`` lists it, private when that ``__all__`` omits it, and - without ``__all__`` - public only when its
+    name is special (``__main__``)."""
+    parts = mod.split(".")
+    for i in range(1, len(parts)):
+        name = parts[i]
+        if not name.startswith("_"):
+            continue
+        parent = model["mods"].get(".".join(parts[:i]))
+        if parent and parent["all"]:
+            if name not in parent["all"]:
+                return False
+        elif not (name.startswith("__") and name.endswith("__")):
+            return False
+    return True
 
 
 def name_public(m: dict, name: str, imported: bool) -> bool:
@@ -196,11 +220,11 @@ def public_paths(model: dict) -> dict[str, set[str]]:
     for mod, m in mods.items():
         for o in m["objs"]:
             s = top_paths.setdefault((mod, o["name"]), set())
-            if module_public(mod) and name_public(m, o["name"], imported=False):
+            if module_public(model, mod) and name_public(m, o["name"], imported=False):
                 s.add(f"{mod}.{o['name']}")
     for mod, m in mods.items():
         for frm, name, asname in m["imports"]:
-            if (frm, name) in top_paths and module_public(mod) and name_public(m, asname or name, imported=True):
+            if (frm, name) in top_paths and module_public(model, mod) and name_public(m, asname or name, imported=True):
                 top_paths[(frm, name)].add(f"{mod}.{asname or name}")
     for (mod, name), paths in top_paths.items():
         out[f"{mod}.{name}"] = set(paths)
@@ -268,7 +292,9 @@ def apply_edit(rng: random.Random, old: dict, new: dict, kind: str, surface: dic
         mod = rng.choice(list(new["mods"]))
         name = f"added{rng.randint(100, 999)}"
         new["mods"][mod]["objs"].append(new_obj(name, rng.choice(["func", "attr", "class"])))
-        if new["mods"][mod]["all"] is not None and rng.random() < 0.7:
+        # an *empty* __all__ declares nothing (names decide): giving it a first entry would un-publish every other
+        # object of the module, which is no compatible edit - only a non-empty __all__ is extended
+        if new["mods"][mod]["all"] and rng.random() < 0.7:
             new["mods"][mod]["all"].append(name)
         return {"edit": kind, "where": f"{mod}.{name}", "expect": None}
     if kind == "add_kwarg":
